@@ -210,8 +210,8 @@ def _run_check(prop, tier, seed, replay, workers, t_start, scratch):
     replay_paths = []
     for v in unknown:
         seen_kinds[v["kind"]] += 1
-        if seen_kinds[v["kind"]] > 3:
-            continue  # at most 3 replay files per violation kind
+        if seen_kinds[v["kind"]] > int(os.environ.get("VERIF_MAX_REPLAYS", "3")):
+            continue  # at most 3 replay files per violation kind (dev: VERIF_MAX_REPLAYS)
         body = _jsonable({"property": prop, "tier": tier, "case": v.get("case"), "violation": {k: v[k] for k in v if k != "case"}})
         h = hashlib.sha256(json.dumps(body, sort_keys=True).encode()).hexdigest()[:12]
         path = os.path.join(REPLAY_DIR, f"{prop}-{h}.json")
